@@ -289,6 +289,44 @@ stream_lastclock(struct stream *stream)
 	return stream->lastclock;
 }
 
+/* Returns the size in bytes of the event that begins at the given offset, or
+ * -1 if the event (including its header and the jumbo size) doesn't fit in
+ * what is left of the stream. The size is computed with 64 bits, as the jumbo
+ * size comes from the file and may not fit in an int. */
+static int64_t
+event_size_at(struct stream *stream, int64_t offset)
+{
+	int64_t left = stream->size - offset;
+	int64_t size = (int64_t) sizeof(struct ovni_ev_header);
+
+	if (left < size)
+		return -1;
+
+	const struct ovni_ev *ev = (const struct ovni_ev *) &stream->buf[offset];
+
+	if (ev->header.flags & OVNI_EV_JUMBO) {
+		uint32_t jumbo_size;
+		size += (int64_t) sizeof(jumbo_size);
+
+		if (left < size)
+			return -1;
+
+		memcpy(&jumbo_size, &ev->payload.jumbo.size, sizeof(jumbo_size));
+		size += (int64_t) jumbo_size;
+	} else {
+		int payload_size = ev->header.flags & 0x0f;
+
+		/* The minimum payload is 2 bytes, encoded as 1 */
+		if (payload_size != 0)
+			size += payload_size + 1;
+	}
+
+	if (left < size)
+		return -1;
+
+	return size;
+}
+
 int
 stream_step(struct stream *stream)
 {
@@ -299,7 +337,15 @@ stream_step(struct stream *stream)
 
 	/* Only step the offset if we have loaded an event */
 	if (stream->cur_ev != NULL) {
-		stream->offset += ovni_ev_size(stream->cur_ev);
+		/* Already checked when the event was loaded */
+		int64_t cur_size = event_size_at(stream, stream->offset);
+		if (cur_size < 0) {
+			err("stream '%s' has a corrupted event at offset %"PRIi64,
+					stream->relpath, stream->offset);
+			return -1;
+		}
+
+		stream->offset += cur_size;
 
 		/* It cannot pass the size, otherwise we are reading garbage */
 		if (stream->offset > stream->size) {
@@ -316,14 +362,14 @@ stream_step(struct stream *stream)
 		}
 	}
 
-	stream->cur_ev = (struct ovni_ev *) &stream->buf[stream->offset];
-
-	/* Ensure the event fits */
-	if (stream->offset + ovni_ev_size(stream->cur_ev) > stream->size) {
+	/* Ensure the event fits before looking at it */
+	if (event_size_at(stream, stream->offset) < 0) {
 		err("stream '%s' ends with incomplete event",
 				stream->relpath);
 		return -1;
 	}
+
+	stream->cur_ev = (struct ovni_ev *) &stream->buf[stream->offset];
 
 	int64_t clock = stream_evclock(stream, stream->cur_ev);
 
@@ -339,7 +385,9 @@ stream_step(struct stream *stream)
 		}
 	}
 
-	stream->deltaclock = clock - stream->lastclock;
+	/* The clocks of unsorted or corrupted streams can be arbitrarily far
+	 * apart, avoid the signed overflow */
+	stream->deltaclock = (int64_t) ((uint64_t) clock - (uint64_t) stream->lastclock);
 	stream->lastclock = clock;
 
 	return 0;
